@@ -3,7 +3,7 @@
      c01_mismatches     model output <> implementation output (correspondence)
      c01_spec_failures  specification oracle on the IMPLEMENTATION's outputs *)
 From IV Require Import Base.Codes Proofs.TwccHdrExtProofs Check.C15Check.
-From IV Require Export Base.Word Model.TwccHdrExt Model.Chain.
+From IV Require Export Base.Word Model.TwccHdrExt Model.Chain Model.DumpLog.
 From IV Require Import Proofs.ChainProofs.
 Notation wres := Chain.wres.
 From Coq Require Import Lia.
@@ -11,7 +11,9 @@ Open Scope Z_scope.
 
 (* ---- packets as the harness projects them ----
    header: h_fixed = [version; padding; marker; pt; seq; ts; ssrc; paddingSize; csrc...]
-   body  : (payload id (identical bytes <=> identical id; -1 for FEC repair payloads), payload length) *)
+   body  : (payload id (identical bytes <=> identical id; -1 for FEC repair payloads), payload length);
+           the payload id of an RTP packet is 256 * (interning number) + the last payload byte, so
+           that the count byte of the legacy padding form can be read off ([last_byte]) *)
 Definition pkt := (hdr * (Z * Z))%type.
 Definition p_hdr (p : pkt) : hdr := fst p.
 Definition p_pid (p : pkt) : Z := fst (snd p).
@@ -33,8 +35,17 @@ Definition c_fec_ssrc (c : cfg) := let '(_, _, _, _, a, _) := c in a.
 Definition c_fec_pt (c : cfg) := let '(_, _, _, _, _, a) := c in a.
 
 Definition same_stream (c : cfg) (p : pkt) : bool := h_ssrc (p_hdr p) =? c_ssrc c.
-(* PacketFactoryCopy.NewPacket fails for payloads above 1460 bytes; PacketFactoryNoOp never *)
-Definition np_fail (disable_copy : bool) (p : pkt) : bool := negb disable_copy && (p_len p >? 1460).
+Definition h_padding (h : hdr) : Z := nth 1 (h_fixed h) 0.
+Definition h_padsize (h : hdr) : Z := nth 7 (h_fixed h) 0.
+Definition last_byte (p : pkt) : Z := p_pid p mod 256.
+(* legacy padding form: Padding bit set, PaddingSize 0, the count in the last payload byte *)
+Definition legacy_form (p : pkt) : bool := (h_padding (p_hdr p) =? 1) && (h_padsize (p_hdr p) =? 0).
+(* ... whose count exceeds the payload (NewPacket: errPaddingOverflow, RTX streams only) *)
+Definition legacy_overflow (p : pkt) : bool := legacy_form p && (0 <? p_len p) && (p_len p <? last_byte p).
+(* PacketFactoryCopy.NewPacket fails for payloads above 1460 bytes and, when RTX is configured,
+   for a legacy padding count above the payload length; PacketFactoryNoOp never *)
+Definition np_fail (disable_copy rtx : bool) (p : pkt) : bool :=
+  negb disable_copy && ((p_len p >? 1460) || (rtx && legacy_overflow p)).
 Definition set_tcc (sid n : Z) (p : pkt) : option pkt :=
   match set_extension sid (tcc_bytes n) (p_hdr p) with Some h' => Some (h', snd p) | None => None end.
 
@@ -46,8 +57,17 @@ Fixpoint consecutive (l : list Z) : bool :=
   | _ => true
   end.
 Definition fec_pkt (c : cfg) : pkt := (mkH [2; 0; 0; c_fec_pt c; 0; 0; c_fec_ssrc c; 0] false 0 [], (-1, -1)).
+(* encodeFlexFecPacket gives up (MarshalTo: errInvalidRTPPadding) when a media packet it covers is in
+   the legacy padding form; FEC packet j covers the media packets at indices = j mod nfec *)
+Fixpoint covers_legacy (nfec j i : nat) (buf : list pkt) : bool :=
+  match buf with
+  | [] => false
+  | p :: tl => (Nat.eqb (i mod nfec) j && legacy_form p) || covers_legacy nfec j (S i) tl
+  end.
 Definition encode (c : cfg) (nfec : Z) (buf : list pkt) : list pkt :=
-  if consecutive (map (fun p => h_seq (p_hdr p)) buf) then repeat (fec_pkt c) (Z.to_nat nfec) else [].
+  if consecutive (map (fun p => h_seq (p_hdr p)) buf)
+  then flat_map (fun j => if covers_legacy (Z.to_nat nfec) j 0 buf then [] else [fec_pkt c]) (seq 0 (Z.to_nat nfec))
+  else [].
 
 (* ---- which closure each library member contributes (kind codes are the harness's) ----
    0 NoOp  1 nack generator  2 nack responder  3 report receiver  4 report sender
@@ -57,9 +77,14 @@ Definition encode (c : cfg) (nfec : Z) (buf : list pkt) : list pkt :=
 Definition member_desc := (Z * list Z)%type.
 Definition prm (m : member_desc) (i : nat) : Z := nth i (snd m) 0.
 
+(* streamsFilter: 0 = default (stream negotiated nack), 1 / 2 = a custom filter accepting / rejecting all *)
+Definition bound_of (c : cfg) (mode : Z) : bool :=
+  if mode =? 1 then true else if mode =? 2 then false else c_nack c.
+
+(* responder parameters: [DisableCopy; RTX configured on the stream; streams filter mode] *)
 Definition wr_of (c : cfg) (m : member_desc) : wrapper pkt :=
   let k := fst m in
-  if k =? 2 then w_responder (same_stream c) (np_fail (prm m 0 =? 1)) (c_nack c)
+  if k =? 2 then w_responder (same_stream c) (np_fail (prm m 0 =? 1) (prm m 1 =? 1)) (bound_of c (prm m 2))
   else if (k =? 4) || (k =? 8) || (k =? 9) || (k =? 11) || (k =? 15) then w_record
   else if k =? 6 then w_twcc_ext set_tcc (c_sid c)
   else if k =? 13 then w_flexfec (same_stream c) (encode c (prm m 1)) (c_fec c) (prm m 0)
@@ -77,7 +102,7 @@ Definition tcc_ext (c : cfg) (h : hdr) : option bool :=
 Definition rw := rwrapper (option hdr) hdr.
 Definition rd_of (c : cfg) (m : member_desc) : rw :=
   let k := fst m in
-  if (k =? 1) then (if c_nack c then r_parse_record rparse (fun _ => true) else r_id)
+  if (k =? 1) then (if bound_of c (prm m 0) then r_parse_record rparse (fun _ => true) else r_id)
   else if (k =? 3) || (k =? 7) || (k =? 10) then r_parse_record rparse (fun _ => true)
   else if k =? 5 then r_twcc_sender rparse (tcc_ext c) (c_sid c)
   else if k =? 9 then r_stats rparse
@@ -85,7 +110,8 @@ Definition rd_of (c : cfg) (m : member_desc) : rw :=
 (* RTCP readers; a compound packet is projected to a header whose h_fixed lists the packet types *)
 Definition crd_of (m : member_desc) : rw :=
   let k := fst m in
-  if (k =? 2) || (k =? 3) || (k =? 10) || (k =? 14) then r_parse_record rparse (fun _ => true)
+  if (k =? 2) || (k =? 3) || (k =? 14) then r_parse_record rparse (fun _ => true)
+  else if k =? 10 then r_parse_nocache rparse
   else if k =? 8 then r_rtpfb rparse (fun _ _ => false)
   else if k =? 9 then r_stats_rtcp rparse
   else r_id.
@@ -181,9 +207,60 @@ Definition close_model_ok (ms : list cm) (o : closeobs) : bool :=
 
 (* ---- the case ---- *)
 (* counts: (member index in Chain order, 0 = RTP write side / 1 = RTP read side, observed count) *)
+(* aliasing observation of one object handed to the chain: kind (0 RTCP write batch, 1 RTP write
+   header+payload, 2 RTP read buffer, 3 RTCP read buffer, 4 RTCP packets cached in the attributes a
+   Read returned), op index, deep copy taken before the call, (the caller's object after the call
+   returned, after Close), (the object the transport was handed re-read after the call, after Close).
+   Kinds 0 and 4: content ids per packet; kind 1: [index into the packet table]; kinds 2, 3: [content
+   id of the whole buffer] *)
+Definition aobs := (Z * Z * list Z * (list Z * list Z) * (list Z * list Z))%type.
+(* one retransmission injected by the tapped responder: chain index of the responder, the packet
+   the responder handed to its inner writer (index), the calls that reached the transport for it *)
+Definition iobs := (Z * Z * list Z)%type.
+
 Definition c01_case :=
   (cfg * list member_desc * list pkt * list wop * list rop * list rop * list wop
-   * list cm * closeobs * list (Z * Z * Z) * list Z)%type.
+   * list cm * closeobs * list (Z * Z * Z) * list Z * list aobs * list iobs)%type.
+
+(* ---- injections: a member calling its own inner writer (chain_inject), replayed ---- *)
+Fixpoint run_injs (outer : list (wrapper pkt)) (tbl : list pkt) (sts : list (ws pkt)) (l : list iobs) : bool :=
+  match l with
+  | [] => true
+  | (ri, qi, ocalls) :: tl =>
+      (* the responder has chain index ri, i.e. outer index n-1-ri *)
+      let k := (length outer - 1 - Z.to_nat ri)%nat in
+      let '((sts', (_, log)), _) := chain_inject outer k script_writer (tb tbl qi) (sts, ([], [])) in
+      list_eqb pkt_eqb log (map (tb tbl) ocalls) && run_injs outer tbl sts' tl
+  end.
+
+(* ---- what the members do to a shared RTCP packet slice: only the packet dumpers touch it
+   (writeDumpedRTCP), and they leave it as it was ---- *)
+Definition bit (x : Z) (i : nat) : bool := Z.testbit x (Z.of_nat i).
+Definition rtcp_kinds : list Z := [200; 201; 202; 203; 205; 206; 215; 211].
+Fixpoint kind_index (k : Z) (l : list Z) (i : nat) : nat :=
+  match l with [] => i | x :: tl => if x =? k then i else kind_index k tl (S i) end.
+(* the per-packet filter selected by the option bits (harness: dumpOpts); a packet is (kind, content id) *)
+Definition dump_pkt_ok (opt : Z) (p : Z * Z) : bool :=
+  let i := kind_index (fst p) rtcp_kinds 0 in negb ((i <? 8)%nat && bit opt i).
+Definition dump_batch_ok (opt : Z) (b : list (Z * Z)) : bool := negb (bit opt 9 && (3 <=? length b)%nat).
+Definition slice_after_member (dumper_kind : Z) (m : member_desc) (arr : list (Z * Z)) : list (Z * Z) :=
+  if fst m =? dumper_kind then snd (write_dumped_rtcp (dump_batch_ok (prm m 0)) (dump_pkt_ok (prm m 0)) arr) else arr.
+Definition slice_after_chain (dumper_kind : Z) (ms : list member_desc) (arr : list (Z * Z)) : list (Z * Z) :=
+  fold_left (fun a m => slice_after_member dumper_kind m a) ms arr.
+
+(* model's prediction for an aliasing observation: the object ends as it was handed in
+   (RTCP slices: as the dumpers leave it) *)
+Definition alias_model_ok (ms : list member_desc) (tbl : list pkt) (cwops : list wop) (a : aobs) : bool :=
+  let '(kind, op, cp, (cret, cend), (tret, tend)) := a in
+  if (kind =? 0) || (kind =? 4) then
+    let kinds := if kind =? 0
+                 then h_fixed (p_hdr (tb tbl (let '(pi, _, _, _) := nth (Z.to_nat op) cwops (0, [], [], (0, [])) in pi)))
+                 else map (fun _ => 0) cp in
+    let arr := combine kinds cp in
+    let want := map snd (slice_after_chain (if kind =? 0 then 11 else 10) ms arr) in
+    (Nat.eqb (length arr) (length cp)) &&
+    list_eqb Z.eqb want cend && list_eqb Z.eqb want tend
+  else true.
 
 Definition init_ws (l : list member_desc) : list (ws pkt) := map (fun _ => ws0) l.
 Definition init_rs (l : list member_desc) : list (rs hdr) := map (fun _ => rs0) l.
@@ -195,14 +272,16 @@ Definition counts_ok (n : nat) (wsts : list (ws pkt)) (rsts : list (rs hdr)) (co
              if side =? 0 then w_ctr (nth pos wsts ws0) =? v else r_ctr (nth pos rsts rs0) =? v) counts.
 
 Definition c01_model_code (c : c01_case) : nat :=
-  let '(cf, ms, tbl, wops, rops, crops, cwops, cms, cobs, counts, _) := c in
+  let '(cf, ms, tbl, wops, rops, crops, cwops, cms, cobs, counts, _, aos, ios) := c in
   let '(okw, wsts) := run_wops (map (wr_of cf) ms) tbl (init_ws ms) wops in
   let '(okr, rsts) := run_rops (map (rd_of cf) ms) tbl (init_rs ms) rops in
   let '(okcr, _) := run_rops (map crd_of ms) tbl (init_rs ms) crops in
   let '(okcw, _) := run_wops (map cwr_of ms) tbl (init_ws ms) cwops in
   if negb okw then 1%nat else if negb okr then 2%nat else if negb okcr then 3%nat
   else if negb okcw then 4%nat else if negb (close_model_ok cms cobs) then 5%nat
-  else if negb (counts_ok (length ms) wsts rsts counts) then 6%nat else 0%nat.
+  else if negb (counts_ok (length ms) wsts rsts counts) then 6%nat
+  else if negb (run_injs (rev (map (wr_of cf) ms)) tbl wsts ios) then 7%nat
+  else if negb (forallb (alias_model_ok ms tbl cwops) aos) then 8%nat else 0%nat.
 
 Definition c01_mismatches (cases : list c01_case) : list (Z * Z) := find_codes c01_model_code cases 0.
 
@@ -219,9 +298,10 @@ Definition upto_tccb (sid : Z) (a b : pkt) : bool :=
   (* with no TWCC id negotiated nothing at all may change *)
   ((0 <? sid) || hdr_eqb (p_hdr a) (p_hdr b)).
 
-(* in scope of the property: payload <= 1460, TWCC id (if any) in 1..14, RFC 8285 profiles *)
+(* in scope of the property: payload <= 1460, a legacy padding count within the payload, TWCC id
+   (if any) in 1..14, RFC 8285 profiles *)
 Definition in_scope_w (c : cfg) (p : pkt) : bool :=
-  (p_len p <=? 1460) && (c_sid c <=? 14) &&
+  (p_len p <=? 1460) && negb (legacy_overflow p) && (c_sid c <=? 14) &&
   (negb (h_ext (p_hdr p)) || (h_profile (p_hdr p) =? PROFILE_ONE) || (h_profile (p_hdr p) =? PROFILE_TWO)).
 
 Definition is_fec (c : cfg) (p : pkt) : bool :=
@@ -279,8 +359,32 @@ Definition rop_spec (c : cfg) (rtcp : bool) (tbl : list pkt) (o : rop) : nat :=
             feedback that accounts a packet whose read failed (decoy sequence numbers);
             app RTCP packets missing/duplicated/reordered at the transport;
             failed reads counted by stats] *)
+(* an object handed to the chain is never altered - not while the call runs, not by a background
+   goroutine afterwards (RTP headers: up to the TWCC extension the header-extension member adds
+   in place).  Codes 100 + 10 * kind + (1 caller's object after the call, 2 the transport's object
+   after the call, 3 / 4 the same after Close) *)
+Definition alias_code (sid : Z) (tbl : list pkt) (a : aobs) : nat :=
+  let '(kind, op, cp, (cret, cend), (tret, tend)) := a in
+  let same := if kind =? 1 then list_eqb (fun i j => upto_tccb sid (tb tbl i) (tb tbl j)) else list_eqb Z.eqb in
+  let base := (100 + 10 * Z.to_nat kind)%nat in
+  if negb (same cp cret) then (base + 1)%nat
+  else if negb (same cp tret) then (base + 2)%nat
+  else if negb (same cp cend) then (base + 3)%nat
+  else if negb (same cp tend) then (base + 4)%nat
+  else 0%nat.
+
+(* a packet a member injects passes the members below it unchanged (up to TWCC), first, followed
+   by FEC repair packets only *)
+Definition inj_code (sid : Z) (c : cfg) (tbl : list pkt) (o : iobs) : nat :=
+  let '(_, qi, ocalls) := o in
+  match map (tb tbl) ocalls with
+  | [] => 91%nat
+  | q' :: rest => if negb (upto_tccb sid (tb tbl qi) q') then 92%nat
+                  else if negb (forallb (is_fec c) rest) then 93%nat else 0%nat
+  end.
+
 Definition c01_spec_code (cs : c01_case) : nat :=
-  let '(cf, ms, tbl, wops, rops, crops, cwops, cms, cobs, counts, flags) := cs in
+  let '(cf, ms, tbl, wops, rops, crops, cwops, cms, cobs, counts, flags, aos, ios) := cs in
   let has_twcc := existsb (fun m => fst m =? 6) ms in
   let sid := if has_twcc then c_sid cf else 0 in
   match first_code (wop_spec sid cf false tbl) wops with
@@ -310,7 +414,10 @@ Definition c01_spec_code (cs : c01_case) : nat :=
       else if negb (nth 1 flags 0 =? 0) then 82%nat
       else if negb (nth 2 flags 0 =? 0) then 83%nat
       else if negb (nth 3 flags 0 =? 0) then 84%nat
-      else 0%nat
+      else match first_code (inj_code sid cf tbl) ios with
+           | S k => S k
+           | O => first_code (alias_code sid tbl) aos
+           end
   end end end end.
 
 Definition c01_spec_failures (cases : list c01_case) : list (Z * Z) := find_codes c01_spec_code cases 0.
